@@ -484,3 +484,47 @@ Theorem C07_discover_refuses_bad_chaddr : forall c ch ci xid opts junk,
   send_discover c ch ci xid opts junk = Ok [].
 Proof. exact send_discover_refuses. Qed.
 Print Assumptions C07_discover_refuses_bad_chaddr.
+
+(* ================================================================ *)
+(* Round 7: remaining error paths (nothing is sent when the function returns an error) and configurations
+   without an IPv6 link-local address *)
+Theorem C07_echo6_refuses_wrong_family : forall c src dst id seq junk,
+  is6 (a_ip src) = false \/ is6 (a_ip dst) = false -> send_echo6 c src dst id seq junk = Ok [].
+Proof. exact echo6_refuses. Qed.
+Print Assumptions C07_echo6_refuses_wrong_family.
+
+(* icmp6SendPacket with a message that does not fit the buffer: ErrPayloadTooBig is returned (since fix d618c5a;
+   the dropped error made the code panic), so together with C07_icmp6_send_any_message every length is covered *)
+Theorem C07_icmp6_refuses_oversize : forall c src dst p junk,
+  (EthMaxSize - 14 - 40 < length p)%nat -> icmp6_send_packet c src dst p junk = Ok [].
+Proof. exact icmp6_oversize. Qed.
+Print Assumptions C07_icmp6_refuses_oversize.
+
+Theorem C07_ra_refuses_oversize : forall c pf rd dst junk ob,
+  pf <> [] ->
+  cat_opts ((match rd with Some (lt, srv) => [rdnss_option lt srv] | None => [] end)
+            ++ map (fun p => prefix_option (u8 (fst p)) true true 7200 1800 (snd p)) pf
+            ++ [dnssl_lan_option 1200; mtu_option (u32 (mtu c)); lla_option 1 (host_mac c)]) = Some ob ->
+  (1452 < length ob)%nat -> send_ra c pf rd dst junk = Ok [].
+Proof. exact ra_oversize. Qed.
+Print Assumptions C07_ra_refuses_oversize.
+
+Theorem C07_udp6_refuses_oversize : forall smac dmac sip dip sp dp p junk,
+  (1460 < length p)%nat -> udp6_send smac dmac sip dip sp dp p junk = Ok [].
+Proof. exact udp6_too_big. Qed.
+Print Assumptions C07_udp6_refuses_oversize.
+
+(* NICInfo.HostLLA unset: RS and RA leave with the unspecified source :: and are otherwise as above *)
+Theorem C07_rs_wellformed_no_lla : forall c junk,
+  mac_ok (host_mac c) -> host_lla c = [] -> length junk = EthMaxSize ->
+  exists fr, send_rs c junk = Ok [fr] /\ wf_rs (host_mac c) (repeat 0 16) fr = true.
+Proof. exact rs_wf_no_lla. Qed.
+Print Assumptions C07_rs_wellformed_no_lla.
+
+Theorem C07_ra_wellformed_no_lla : forall c pf rd dm di junk fr,
+  mac_ok (host_mac c) -> host_lla c = [] -> mac_ok dm -> ip6_ok di -> pf_ok pf -> rd_ok rd ->
+  length junk = EthMaxSize ->
+  send_ra c pf rd (dm, di) junk = Ok [fr] ->
+  wf_ra (host_mac c) (repeat 0 16) (mtu c) pf rd dm di fr = true.
+Proof. exact ra_wf_no_lla. Qed.
+Print Assumptions C07_ra_wellformed_no_lla.
